@@ -2,9 +2,11 @@
 
 (M)  small-step instance (pipeline stage by stage) with every declarative invariant + BigStepAgrees;
      as-implemented switch runs for D2 (AutoIdSkipsUsed) and D14 (ImplicitMapsLinked) must be violated.
-(C)  lean big-step instance (one action per public call) dumped; every path of the dump — every description
-     x {file at depth 1, file at depth 2, dict through a WorldHandle, bare populate} x Load; Enable —
-     is executed on the real classes, observations compared after each of the two calls.
+(C)  lean big-step instance (one action per public call) dumped; for every description the scripted behaviours
+     below — {file at depth 1, file at depth 2, dict through a WorldHandle, bare populate} x Load; Access;
+     Enable; Access and, for the descriptions `Again` admits, the second round on the same handle (ClearHandle;
+     [Disturb]; [Rewrite]; Reload; Access; Enable; Access) — are executed on the real classes, observations
+     compared after every call; together they take every edge of the dump (checked).
 """
 import json
 import os
@@ -26,30 +28,37 @@ LENIENCIES = [
     'compared: per handler the sequence must be on_add(entity, world) then on_world_load(handle, world)',
     'dict path: the caller passes types and already-resolved objects; an entity listed without components does not exist',
     'a Python object named by ${...} that is itself a string beginning with a marker is not generated',
+    'the second round (clear the handle, load again) is explored for file handles and descriptions with at most one '
+    'processor or entity; the identifier false is generated only without the identifier 0 (False == 0 in Python)',
 ]
 
 
 def consts(fam, small, lean=False, auto=True, linked=True):
     b = lambda x: 'TRUE' if x else 'FALSE'     # noqa: E731
     return ({'Fam': '"%s"' % fam, 'SmallStep': b(small), 'Lean': b(lean), 'AutoIdSkipsUsed': b(auto),
-             'ImplicitMapsLinked': b(linked)}, {'PickDesc': 'InFam'})
+             'ImplicitMapsLinked': b(linked)}, {'PickDesc': 'InFam', 'Again': 'AgainSmall'})
 
 
-# -- the alphabet table printed by the spec (ASSUME PrintT(<<"WORLDLOAD-SHAPES", Shape>>)) ------------------
+# -- tables printed by the spec (ASSUME PrintT(<<"WORLDLOAD-SHAPES", Shape>>), ...ALTDESC) -----------------
 
-def shapes_from(out):
-    k = out.find('"WORLDLOAD-SHAPES"')
+def printed(out, tag):
+    k = out.find(tag)
     if k < 0:
-        raise common.MachineryError('TLC did not print the argument alphabet')
+        raise common.MachineryError('TLC did not print %s' % tag)
     start = out.rfind('<<', 0, k)
     lines = out[start:].split('\n')
     keep = [lines[0]]
     for ln in lines[1:]:
-        if re.match(r'[A-Za-z]', ln):       # first line of ordinary TLC chatter
+        if re.match(r'[A-Za-z]|<<', ln):    # ordinary TLC chatter, or the next printed value (continuation lines are indented)
             break
         keep.append(ln)
-    v = tla.parse_value('\n'.join(keep))
-    return {tok: dict(s) for tok, s in v[1].items()}
+    return tla.parse_value('\n'.join(keep))
+
+
+def tables_from(out):
+    """(alphabet table, AltDesc) as printed by the two ASSUME PrintT of the spec."""
+    return ({tok: dict(s) for tok, s in printed(out, '"WORLDLOAD-SHAPES"')[1].items()},
+            printed(out, '"WORLDLOAD-ALTDESC"')[1])
 
 
 # -- dump loading: states are parsed on first use (in the replay workers), labels are 2-3 kB each -----------
@@ -116,23 +125,51 @@ def tlc_dump(res, fam, name):
                          'depth': r.depth, 'wall_s': round(r.wall, 1), 'result': 'ok' if r.ok else r.violated})
     if not r.ok:
         raise common.MachineryError('lean instance %s failed (%s)\n%s' % (name, r.violated, r.out[-3000:]))
-    shapes = shapes_from(r.out)
+    tables = tables_from(r.out)
     g = load_dot_lazy(dot)
     os.remove(dot)
     if len(g.states) != r.distinct:
         raise common.MachineryError('dump has %d states, TLC reports %d' % (len(g.states), r.distinct))
-    return g, shapes
+    return g, tables
 
 
-def replay_all(res, g, shapes, name, desper):
+def _l(md):
+    return ('Load', (md,))
+
+
+A, E, CH, D, RW, R = [(n, ()) for n in ('Access', 'Enable', 'ClearHandle', 'Disturb', 'Rewrite', 'Reload')]
+# (behaviour, keep it when the description has no second round and the behaviour stops at ClearHandle?)
+SCRIPTS = [([_l('file1'), A, E, A, CH, D, R, A, E, A], True),        # mutated containers, fresh resource objects
+           ([_l('file2'), A, E, A, CH, R, A, E, A], True),           # plain reload: cached resources stay the same objects
+           ([_l('file1'), E, CH, RW, R, A, E, A], False),            # the file changed in between
+           ([_l('file2'), E, CH, D, RW, R, A, E, A], False),
+           ([_l('dict'), A, E, A], True),
+           ([_l('bare'), E], True)]
+
+
+def scripted_paths(g):
+    """The scripts above from every description, cut where the model does not enable the next call."""
+    for i in g.init:
+        for script, keep_cut in SCRIPTS:
+            cur, labs, tg = i, [], []
+            for lab in script:
+                c = g.succ(cur, *lab)
+                if not c:
+                    break
+                labs.append(lab)
+                tg.append(c[0])
+                cur = c[0]
+            if labs and (keep_cut or len(labs) == len(script)):
+                yield (i, labs, tg)
+
+
+def replay_all(res, g, tables, name, desper):
     def factory():
-        return WorldLoadAdapter(desper, shapes, workdir=res.scratch)
+        return WorldLoadAdapter(desper, *tables, workdir=res.scratch)
 
-    # the graph is a forest of depth 2: "every path of depth 2" is every (description, mode, Load; Enable)
-    # and passes through every edge
-    st = rp.run_paths(g, factory, rp.all_paths(g, 2))
+    st = rp.run_paths(g, factory, scripted_paths(g))
     st.extra['descriptions'] = len(g.init)
-    res.absorb(st, name + ':all-paths-depth-2', g)
+    res.absorb(st, name + ':scripted-paths', g)
     if not st.n_violations and len(st.edges) != g.n_edges():
         raise common.MachineryError('%s: replay took %d of %d edges' % (name, len(st.edges), g.n_edges()))
 
@@ -154,11 +191,11 @@ def run(res):
         dump = pool.submit(tlc_dump, res, 'quick', 'c15_quick_lean')
         for j in jobs:
             j.result()
-        g, shapes = dump.result()
-    replay_all(res, g, shapes, 'quick', desper)
-    sample(res, g, shapes, desper)
+        g, tables = dump.result()
+    replay_all(res, g, tables, 'quick', desper)
+    sample(res, g, tables, desper)
     if res.tier == 'thorough':
-        for fam in ('TV1', 'TV2', 'TV3') + tuple('TS%d' % k for k in range(9)):
+        for fam in ('TV1', 'TV2', 'TV3', 'TB') + tuple('TS%d' % k for k in range(9)):
             if res.violations:
                 break
             with ThreadPoolExecutor(2) as pool:
@@ -167,11 +204,12 @@ def run(res):
                                 overrides=ovf, timeout=900)
                 dump = pool.submit(tlc_dump, res, fam, 'c15_%s_lean' % fam)
                 m.result()
-                g, shapes = dump.result()
-            replay_all(res, g, shapes, fam, desper)
+                g, tables = dump.result()
+            replay_all(res, g, tables, fam, desper)
     res.cov['distinct_behaviours'] = res.traces
-    res.cov['rule'] = ('every description of the family is an initial state; each edge of the dumped graph (Load in four '
-                       'modes, Enable after each) is executed on the real classes; distinct = distinct (description, mode)')
+    res.cov['rule'] = ('every description of the family is an initial state; the scripted behaviours (four load modes, '
+                       'repeated access, enable, second round on the same handle) take every edge of the dumped graph on '
+                       'the real classes; distinct = distinct (description, script)')
 
 
 def replay(res, path):
@@ -180,26 +218,26 @@ def replay(res, path):
     with open(path) as f:
         blob = json.load(f)
     fam = blob['summary'].split(':', 1)[0]
-    g, shapes = tlc_dump(res, fam, 'c15_%s_lean' % fam)
+    g, tables = tlc_dump(res, fam, 'c15_%s_lean' % fam)
     init = blob['detail']['init_state']
     start = next((i for i in g.init if tla.to_json(g.states[i]) == init), None)
     if start is None:
         raise common.MachineryError('description of the replay file is not in family %r' % fam)
     labels = [(n, tuple(a)) for n, a in blob['detail']['labels']]
     st = rp.Stats()
-    v = rp.walk(g, WorldLoadAdapter(desper, shapes, workdir=res.scratch), labels, None, st, start=start)
+    v = rp.walk(g, WorldLoadAdapter(desper, *tables, workdir=res.scratch), labels, None, st, start=start)
     if v:
         st.violations.append(v)
         st.n_violations = 1
     res.absorb(st, fam + ':replay', g)
 
 
-def sample(res, g, shapes, desper):
-    ad = WorldLoadAdapter(desper, shapes, workdir=res.scratch)
+def sample(res, g, tables, desper):
+    ad = WorldLoadAdapter(desper, *tables, workdir=res.scratch)
     picked = 0
     for i in g.init[res.seed % 97::max(1, len(g.init) // 3)]:
         d = g.states[i]['desc']
         if picked < 3 and (d['ents'] or d['procs']):
             picked += 1
             res.sample({'description_json': ad.file_json(d, sparse=True),
-                        'calls': ['Load(file1)', 'Load(file2)', 'Load(dict)', 'Load(bare)', 'each followed by Enable']})
+                        'calls': [' ; '.join('%s%s' % (n, list(a) or '') for n, a in sc) for sc, _ in SCRIPTS]})
